@@ -104,3 +104,24 @@ def crosscheck(modelled=('V-start-first', 'V-skip-first')):
         elif res['variant'] not in modelled:
             stale.append('%s: variant %s not modelled' % (ver, res['variant']))
     return table, stale
+
+
+def result_list_shapes():
+    """{version: {list name: 'pair' | 'bare'}} from unittest/result.py of every stdlib present"""
+    out = {}
+    for ver, fn in sorted(stdlib_case_files().items()):
+        rp = os.path.join(os.path.dirname(fn), 'result.py')
+        try:
+            tree = ast.parse(open(rp, encoding='utf-8').read())
+        except OSError:
+            continue
+        shapes = {}
+        for n in ast.walk(tree):
+            if isinstance(n, ast.Call) and isinstance(n.func, ast.Attribute) and n.func.attr == 'append' \
+                    and isinstance(n.func.value, ast.Attribute) and dotted(n.func.value.value) == 'self' \
+                    and n.args:
+                a = n.args[0]
+                shapes.setdefault(n.func.value.attr, set()).add(
+                    'pair' if isinstance(a, ast.Tuple) and len(a.elts) == 2 else 'bare')
+        out[ver] = {k: (v.pop() if len(v) == 1 else 'mixed') for k, v in shapes.items()}
+    return out
